@@ -27,6 +27,8 @@ func main() {
 		cmdCheck(os.Args[2:])
 	case "replay":
 		cmdReplay(os.Args[2:])
+	case "crosscheck":
+		cmdCrossCheck(os.Args[2:])
 	case "ssa":
 		ov, _ := loadOverlay("/repo", verifDir+"/harness")
 		eng, err := sym.Load("/repo", ov)
